@@ -10,6 +10,11 @@ CHECKS = {
   text="Exploration: every (type,string) pair generated is compared (acceptance and value) with an independently written grammar; parse(display(v))==v and the serde string form are checked on generated values of all 15 address/identifier types; the DNS TXT payload parser is compared with the module's ABNF. Sub-domains enumerated completely: all strings of length<=3 over a 24-character alphabet, all single-character edits of the valid spellings of 8 base values.",
   note="IPv4/IPv6 literal syntax is std::net's on both sides; numeric tokens follow Rust integer syntax (leading '+', leading zeros); not a proof: strings outside the enumerated sub-domains are sampled.",
   design="DESIGN.md §3 C15"),
+ "C16": dict(
+  technique="exhaustive enumeration of small ACLs / hop-pattern ASTs x all short hop sequences + proptest random instances, differential against first-match ACL semantics and a Brzozowski-derivative regular-language matcher; metamorphic (redundant parentheses/whitespace); round trip of predicates",
+  text="Exploration with exhaustively enumerated cores: all ACLs with <=3 entries over 6 predicates and all hop-pattern ASTs of depth<=2 (depth 3 in thorough) over 3 predicates plus all top-level sequences of <=3 depth-1 items are evaluated on ALL hop sequences up to length 4/5 over 4 concrete hops and compared with the denotational semantics; random deeper instances and parser soup extend beyond the bound.",
+  note="Hops carry no wildcard ISD/AS (0); empty hop sequences are not generated; patterns are built through parse() (private AST); stacked repetition operators are limited to 12 in parser soup because SUT matching cost grows exponentially with stacked '*' (DESIGN, C16 limits) - a hang would be reported as inconclusive, not as a violation.",
+  design="DESIGN.md §3 C16"),
 }
 NOT_YET = "check not built yet (work in progress)"
 
